@@ -5,7 +5,7 @@ P=$1; NAME=$2; ID=$3; TIER=$4; shift 4
 WT=/tmp/seedtest_$NAME
 git -C /repo worktree remove --force $WT 2>/dev/null
 git -C /repo worktree add --detach $WT HEAD >/dev/null 2>&1 || exit 9
-git -C $WT apply $P || { git -C /repo worktree remove --force $WT; exit 9; }
+if [ "$P" != "-" ]; then git -C $WT apply $P || { git -C /repo worktree remove --force $WT; exit 9; }; fi
 cd /verif
 VERIF_REPO=$WT VERIF_TARGET_SUFFIX=_$NAME ./check $ID $TIER "$@"; rc=$?
 git -C /repo worktree remove --force $WT
